@@ -491,6 +491,7 @@ def explore(run_path, max_paths=400, timeout_ms=10000, label=""):
             res = PathResult(cx, "infeasible")
         for alt in cx.new_alternatives:
             work.append(alt)
-        if res.outcome != "infeasible":
+        # obligations emitted before a path turned out infeasible / was cut are still obligations
+        if res.outcome != "infeasible" or cx.obligations:
             results.append(res)
     return results
